@@ -25,6 +25,28 @@ pub fn count(name: &'static str) {
 pub fn note(s: impl Into<String>) {
     with(|w| w.note(s));
 }
+/// Error kinds a failing read can carry (a socket, a pipe, a file). The first entries are the
+/// common ones; the tail makes sure no code path depends on "the" error kind.
+pub fn read_error_kind() -> std::io::ErrorKind {
+    use std::io::ErrorKind as K;
+    pick(&[
+        K::ConnectionReset, K::ConnectionReset, K::Other, K::TimedOut, K::UnexpectedEof, K::Interrupted, K::ConnectionAborted, K::BrokenPipe, K::NotConnected, K::InvalidData,
+        K::OutOfMemory, K::PermissionDenied, K::InvalidInput, K::WriteZero, K::Unsupported, K::NotFound,
+    ])
+}
+/// Error kinds a failing write can carry.
+pub fn write_error_kind() -> std::io::ErrorKind {
+    use std::io::ErrorKind as K;
+    pick(&[
+        K::BrokenPipe, K::BrokenPipe, K::ConnectionReset, K::TimedOut, K::WriteZero, K::ConnectionAborted, K::Interrupted, K::Other, K::NotConnected, K::StorageFull, K::PermissionDenied,
+        K::InvalidInput, K::OutOfMemory, K::UnexpectedEof, K::Unsupported,
+    ])
+}
+/// Error kinds of file operations (open, create, read, write, close).
+pub fn file_error_kind() -> std::io::ErrorKind {
+    use std::io::ErrorKind as K;
+    pick(&[K::Other, K::PermissionDenied, K::NotFound, K::StorageFull, K::Interrupted, K::UnexpectedEof, K::InvalidData, K::ReadOnlyFilesystem, K::TimedOut, K::OutOfMemory, K::InvalidInput, K::WriteZero])
+}
 /// Shortens byte strings for messages.
 pub fn show(b: &[u8]) -> String {
     let mut s = String::new();
